@@ -1,6 +1,6 @@
 (* Property C11 — the wallet database gives atomic, isolated, ordered key/value transactions.
    Only statements here; each is closed by [exact] of a lemma proved in KV/Proofs.v (Proofs2.v: bucket index invariant
-   and exact listing, Proofs3.v: nested-map refinement, Proofs4.v: no orphans, Proofs5.v: iterators of write
+   and exact listing, Proofs3.v: nested-map refinement, Proofs4.v: no orphans, Proofs5.v + Proofs6.v: iterators of write
    transactions) and followed by Print Assumptions.
    Model: KV/Model.v — masswallet/db/db.go (BytesPrefix, Update) and masswallet/db/ldb/leveldb.go (batch, transaction,
    levelBucket, batchIterator, levelIterator), one Gallina function per Go method.  goleveldb is environment:
@@ -13,7 +13,7 @@
 From Coq Require Import List ZArith Sorted.
 Import ListNotations.
 Open Scope Z_scope.
-Require Import MW.KV.Model MW.KV.Proofs MW.KV.Proofs2 MW.KV.Proofs3 MW.KV.Proofs4 MW.KV.Proofs5.
+Require Import MW.KV.Model MW.KV.Proofs MW.KV.Proofs2 MW.KV.Proofs3 MW.KV.Proofs4 MW.KV.Proofs5 MW.KV.Proofs6.
 
 (* ---- atomicity *)
 (* Commit applies exactly the recorded log, Rollback nothing; db.Update with a failing function leaves the store as it
@@ -426,6 +426,39 @@ Print Assumptions C11_seek.
        snapshot iterator as it is, followed by a batchIterator over the pending net puts (C11_seek_write_tx_unmerged,
        C11_write_iter_not_view_refuted), with batchIterator.Seek / Reset starting at max(seek key, range start);
      [new_iterator_gen false false], [step_seek_unrepaired] ([it_clamp] = false too): the code as first found. *)
+(* THE CODE AS IT IS NOW.  An iterator of a write transaction shows the transaction's own view as of the iterator's creation
+   (store s committed, batch b pending; [commit s b] is the store the transaction would commit):
+   (1) Seek(key) followed by Next() until it answers false yields exactly the entries of the view in the bucket with
+       start <= key' < limit and key' >= key — a committed key the batch deleted is not there, a committed key the batch
+       overwrote is there once with the batch's value, keys only in the batch are there — strictly ascending, hence each
+       once; Seek answers true iff there is one;
+   (2) a fresh iterator advanced by Next() alone yields exactly the entries of the view with start <= key' < limit,
+       strictly ascending.
+   For every store, well-formed batch, bucket, range, key and every number of Next() calls (fuel) above
+   |store| + |batch.puts| + |batch.deletes|; no premise on which keys the batch has touched (C11_seek_write_tx_view_unmerged
+   needed "none of the committed keys of the range").  Proofs6: the index machine [mi_merge] computes the list merge
+   [mrg] of what is left on both sides (merge_spec), and [mrg] of two ascending runs holds for every key the batch's word
+   if the batch wrote the key and the committed entry otherwise (mrg_get), which is [commit] (commit_get). *)
+Theorem C11_write_iter_is_view : forall s b h start limit key fuel,
+  keys_sorted s -> keys_bytes s -> batch_wf b -> keys_bytes (b_puts b) -> bytes_ok (h_path h) ->
+  (length s + length (b_puts b) + length (b_dels b) < fuel)%nat ->
+  (let r := iter_seek (new_iterator s (Some b) h start limit) key in
+   let out := iter_current (snd r) ++ drain fuel (snd r) in
+   (forall k v, In (k, v) out <->
+      s_get (inner_key (h_path h) k) (commit s b) = Some v /\ user_range start limit k = true /\ ble key k = true) /\
+   StronglySorted (fun a b => blt (fst a) (fst b) = true) out /\
+   (fst r = true <-> out <> [])) /\
+  (let out := drain (S fuel) (new_iterator s (Some b) h start limit) in
+   (forall k v, In (k, v) out <->
+      s_get (inner_key (h_path h) k) (commit s b) = Some v /\ user_range start limit k = true) /\
+   StronglySorted (fun a b => blt (fst a) (fst b) = true) out).
+Proof.
+  exact (fun s b h start limit key fuel Hs Hb Hwf Hbb Hp Hf =>
+           conj (write_iter_is_view s b h start limit key fuel Hs Hb Hwf Hbb Hp Hf)
+                (write_iter_is_view_fresh s b h start limit fuel Hs Hb Hwf Hbb Hp Hf)).
+Qed.
+Print Assumptions C11_write_iter_is_view.
+
 (* THE CODE BEFORE THE MERGING REPAIR (kept as the description of what was found; restated for the switch-off model): *)
 (* Seek(key) followed by Next() until false, on an iterator over Range{start, limit} created in a write transaction
    with committed store s and pending batch b, yields two runs one after the other — the Go code does not merge them
